@@ -99,7 +99,7 @@ func twvCases() []twvCase {
 	}
 	// parser robustness: prefixes of valid templates and illegal characters
 	for _, f := range []string{"@if(true)a", "@if(true)a@else", "@each(x in [1,2])a", "@for(i=0;i<2;i++)x", "@insert(\"a\")x", "@if(true){{ # }}@end", "{{ {a:1", "{{ {a: #} }}", "@component(\"a\")@slot(\"x\")b", "{{ \"abc", "{{-- x", "@use(\"~a\"", "@reserve(\"a\"",
-		"@if(true)@end@dump(1)", "{{ [1, 2", "{{ (1 + ", "{{ a ? b", "{{ 1 +", "@breakIf(", "@slot", "}}x", "{{ 1 }}}}x", "a\x00b", "{{-- --}\\@end", "\\{{ x }}", "\\@if(x)", "{{ 99999999999999999999 }}", "{{ 1 ~ 2 }}"} {
+		"@if(true)@end@dump(1)", "{{ [1, 2", "{{ x[1 }}", "{{ arr[0 }}", "{{ arr[0", "{{ 1 + }}", "{{ x.", "{{ x.a(", "@if(x", "@each(v in arr", "@for(i = 0; i <", "{{ (1 + ", "{{ a ? b", "{{ 1 +", "@breakIf(", "@slot", "}}x", "{{ 1 }}}}x", "a\x00b", "{{-- --}\\@end", "\\{{ x }}", "\\@if(x)", "{{ 99999999999999999999 }}", "{{ 1 ~ 2 }}"} {
 		cs = append(cs, twvCase{f, d})
 	}
 	for _, dv := range []map[string]any{{"p": (*int)(nil)}, {"p": []any{make(chan int)}}, {"p": map[string]any{"x": func() {}}}, {"loop": 1}, {"p": struct{ a int }{1}}, {"p": uint64(18446744073709551615)}, {"p": int8(-5)}, {"p": uint8(200)}, {"p": float32(1.5)}, {"p": []int{1, 2}}, {"p": map[string]int{"a": 1}}} {
